@@ -176,6 +176,17 @@ def stress(rng, n):
     return out
 
 
+def wide(rng, n):
+    """many keys, a merge pass over several hundred live entries while writers overwrite them (seed C11-D shape)"""
+    out = []
+    for i in range(n):
+        r = rng.fork()
+        out.append(("wide%d" % i, "\n".join(
+            ["CASE wide%d mfs=%d conc=4 cache=256 frag=0/1 dead=0 small=1000000000" % (i, r.choice([4000, 2 ** 31]))] +
+            ["stress 6 400 700 %d %d" % (r.rng(1, 10 ** 6), r.choice([2, 5])), "timeout 90000", "END"])))
+    return out
+
+
 def main(tier, seed):
     rep = Report("C04", tier, seed)
     rng = Rng(seed)
@@ -192,13 +203,13 @@ def main(tier, seed):
         log(out[-3000:])
         rep.coverage.update({"checker_cmd": "make -C coq Props/C04.vo", "trusted_base": TRUSTED})
         return rep.finish()
-    cases = scheduled() + stress(rng, {"quick": 24, "thorough": 400}[tier])
+    cases = scheduled() + stress(rng, {"quick": 24, "thorough": 400}[tier]) + wide(rng, {"quick": 2, "thorough": 20}[tier])
     with cf.ThreadPoolExecutor(max_workers=4) as ex:
         outs = list(ex.map(lambda c: harness_run(["sched"], c[1] + "\n", timeout=120), cases))
     nops, kinds = 0, {}
     for (name, script), (rc, out) in zip(cases, outs):
         lines = out.split("\n")
-        kind = "stress" if name.startswith("stress") else "scheduled"
+        kind = "stress" if name.startswith("stress") else ("wide" if name.startswith("wide") else "scheduled")
         kinds[kind] = kinds.get(kind, 0) + 1
         status = next((l for l in reversed(lines) if l in ("done", "hang")), None)
         if status is None:
@@ -234,6 +245,7 @@ def main(tier, seed):
         "evaluations": len(cases), "operations": nops, "model_tied_results": ntied, "distinct_nontrivial": len(cases), "kinds": kinds,
         "rule": "7 targeted interleavings forced on the real code by parking a named thread at a verif schedule point (half-written "
                 "large entry vs reader remap, get vs merge, set vs merge, del vs del, get inside the merge loop, pool of one) plus "
+                "wide stress (6 threads over 700 keys with merges every 2-5 ms: merge passes over several hundred live entries), "
                 "free-running stress (3-8 threads, 1-3 hot keys, unique values below and above the 8 KiB buffer, merges every 0-10 ms, "
                 "in every third run the background task checks the merge triggers every 1-3 ms, in every fourth a thread evaluates them in a tight loop, "
                 "rollovers, pool sizes 1/2/8, cache 0/1/256); each timed history is checked per key by a Wing-Gong-Lowe "
